@@ -13,11 +13,12 @@
 -/
 import AcnModel.Wire
 import AcnModel.Gen.Tariffs
+import Std.Data.HashMap
 open Lean Acn Acn.Wire Acn.Tariff
 
 /-- executable form of the Decimal no-flip statement (same as `Acn.C17.flipOk`) -/
-def flipOkD (h m s : Nat) : Bool :=
-  match targetHour h m s with
+def flipOkD (d : Dec) (h m s : Nat) : Bool :=
+  match d with
   | ⟨c, e⟩ =>
     let F := (3600 * h + 60 * m + s) / 1800
     decide (e ≤ 0) && decide (F * 10 ^ (-e).toNat ≤ 2 * c) && decide (2 * c < (F + 1) * 10 ^ (-e).toNat)
@@ -60,18 +61,26 @@ def handleInstants (l : List (Schedule Float)) (j : Json) : Except String Json :
   let mut demands : Array Json := #[]
   let mut counts : Array Json := #[]
   let mut calbad : Array Json := #[]
+  -- the Decimal hour value depends on the second of the day only: computed once per distinct second
+  let mut hours : Std.HashMap Nat Rat := {}
   let mut i := 0
   for (t, p) in ts.zip py do
     match p with
     | [mo, d, wd, h, mi, s] =>
-      let r := getTariff l (mo, d) wd h mi s
-      rates := rates.push (jRes r)
+      let sod := 3600 * h + 60 * mi + s
+      let hour ← match hours[sod]? with
+        | some x => pure x
+        | none =>
+          let x := (targetHour h mi s).toRat
+          hours := hours.insert sod x
+          pure x
+      -- `getTariff l md wd h mi s` is by definition `getTariffH l md wd (targetHour h mi s).toRat`
+      rates := rates.push (jRes (getTariffH l (mo, d) wd hour))
       demands := demands.push (jRes (getDemand l (mo, d) wd))
       counts := counts.push (jN (countValid l (mo, d) wd))
+      -- `getTariffAt l t` is `getTariff` on `fieldsOf t`: the model's Calendar against datetime
       let f := fieldsOf t
-      let viaCal := getTariffAt l t
-      let same := f.md == (mo, d) && f.wd == wd && f.h == h && f.m == mi && f.s == s &&
-        (jRes viaCal == jRes r)
+      let same := f.md == (mo, d) && f.wd == wd && f.h == h && f.m == mi && f.s == s
       if !same then calbad := calbad.push (jN i)
     | _ => throw "py fields must be [month,day,wd,h,mi,s]"
     i := i + 1
@@ -96,7 +105,7 @@ def handle (j : Json) : Except String Json := do
       let h := t / 3600; let m := t % 3600 / 60; let s := t % 60
       let d := targetHour h m s
       out := out.push (jS s!"{d.c}e{d.e}")
-      if !flipOkD h m s then bad := bad + 1
+      if !flipOkD d h m s then bad := bad + 1
     return Json.mkObj [("targets", Json.arr out), ("bad", jN bad)]
   let name ← getStr j "file"
   let loaded ← loadFile name
